@@ -31,9 +31,10 @@
      receiving end of slot x goes away while the slot is still registered (the
      component drops its direct-update target, or closes its queue receiver).
 
-   comms.rs anchors: update_data 661-759, suspension 771-779, subscribe
-   785-829, unsubscribe 831-836, process 377-553, notify_clones 555-597,
-   Clone for Gate 847-920, Link 1298-1522. *)
+   comms.rs anchors (tree with the two `fix:` commits): update_data 668-766,
+   GateMetrics::update 1030-1045, suspension 778-786, subscribe 792-836,
+   unsubscribe 838-843, process 377-556, notify_clones 558-604,
+   COMMAND_QUEUE_LEN 109, Clone for Gate 854-927, Link 1300-1530. *)
 From Coq Require Import List NArith Bool.
 Import ListNotations.
 Local Open Scope N_scope.
